@@ -687,9 +687,12 @@ func (w *world) opLocal(op int) {
 	wake := simrt.Chance(1, 3, "wake")
 	ts := uint64(time.Now().Unix())
 	rec := w.newGenuine(w.local, ts, wake)
-	rec.firstAt, rec.lastAt, rec.lastDone = w.now(), w.now(), w.now()
-	rec.deliveries++
-	w.genuineDelivered++
+	// Nobody else can hold this command before the agent has flooded it (it is
+	// built and signed here), so it only becomes replayable (firstAt >= 0) once
+	// the flood call has returned. (A replay racing the issuing call itself was
+	// an artefact of the harness, found by the thorough tier.)
+	issuedAt := w.now()
+	rec.firstAt = -1
 	simrt.Eventf("op=%d local-trigger cmd=%d wake=%v", op, rec.n, wake)
 	simrt.Probe("local_trigger")
 	w.lclock++
@@ -699,6 +702,9 @@ func (w *world) opLocal(op int) {
 	} else {
 		must(w.f.FloodSleepCommand(&protocol.SleepCommand{OriginAgent: w.local, CommandID: rec.key.id, Timestamp: ts, Signature: rec.key.sig, SeenBy: []identity.AgentID{w.local}}))
 	}
+	rec.firstAt, rec.lastAt, rec.lastDone = issuedAt, issuedAt, w.now()
+	rec.deliveries++
+	w.genuineDelivered++
 	w.lclock++
 	w.acted(rec, accept{start: start, end: w.lclock, at: rec.lastAt, how: fmt.Sprintf("local trigger (op %d)", op)}, -1)
 }
